@@ -109,6 +109,7 @@ class Gen:
         self.in_fn = 0
         self.in_loop = 0
         self.no_jump_cross = 0                # inside comprehension body: no break/continue/return
+        self.uncertain = 0                    # inside a branch that may not run: definitions are not callable later
 
     def k(self):
         return next(self.ids)
@@ -209,24 +210,34 @@ class Gen:
             return {"op": "F", "nm": nm, "k": self.k(), "args": xs, "kw": kw}, eff_join(e, eff(log=True))
         if kind == "if":
             c, ec = self.any_expr(D)
-            a, ea = self.int_expr(D)
-            if self.callee_ifstar and rng.random() < 0.12:
-                # else-branch that is a call of a user function with a reserved-looking name
-                xs, eb = self.par([lambda: self.int_expr(D)] * 2)
-                b = {"op": "F", "nm": "if*", "k": self.k(), "args": xs, "kw": []}
-                eb = eff_join(eb, eff(log=True))
-            else:
-                b, eb = self.int_expr(D)
+            self.uncertain += 1      # a function defined in a branch may never be defined
+            try:
+                a, ea = self.int_expr(D)
+                if self.callee_ifstar and rng.random() < 0.12:
+                    # else-branch that is a call of a user function with a reserved-looking name
+                    xs, eb = self.par([lambda: self.int_expr(D)] * 2)
+                    b = {"op": "F", "nm": "if*", "k": self.k(), "args": xs, "kw": []}
+                    eb = eff_join(eb, eff(log=True))
+                else:
+                    b, eb = self.int_expr(D)
+            finally:
+                self.uncertain -= 1
             return {"op": "if", "c": c, "a": a, "b": b}, eff_join(ec, ea, eb)
         if kind == "cond":
             n = rng.randint(1, 3)
             cl, es = [], []
-            for _ in range(n):
+            for k in range(n):
+                # a function defined in a later test or in any result may never be defined
+                self.uncertain += 1 if k else 0
                 c, ec = self.any_expr(D)
+                self.uncertain += 0 if k else 1
                 r, er = self.int_expr(D)
+                self.uncertain -= 1
                 cl.append([c, r])
                 es += [ec, er]
+            self.uncertain += 1
             r, er = self.int_expr(D)
+            self.uncertain -= 1
             cl.append([{"op": "true"}, r])
             return {"op": "cond", "cl": cl}, eff_join(er, *es)
         if kind == "do":
@@ -252,9 +263,12 @@ class Gen:
             return self.call_stored(D)
         if kind == "get":
             n = rng.randint(1, 3)
-            xs, e = self.par([lambda: self.int_expr(D)] * n + [lambda: self.index_expr(n)])
+            xs, e = self.par([lambda: self.int_expr(D)] * n)
+            idx, ei = self.index_expr(n)
+            if par_conflict(e, ei):
+                idx, ei = {"op": "lit", "v": 0}, eff()      # always in range
             seqkind = rng.choice(["list", "tuple"])
-            return {"op": "get", "o": {"op": seqkind, "xs": xs[:-1]}, "i": xs[-1]}, e
+            return {"op": "get", "o": {"op": seqkind, "xs": xs}, "i": idx}, eff_join(e, ei)
         if kind == "sum":
             n, e = self.coll_expr(D)
             return {"op": "sum", "e": n}, e
@@ -272,6 +286,13 @@ class Gen:
 
     def renamable_value(self, d):
         """An int-typed form that compiles to statements plus a result temporary."""
+        self.uncertain += 1       # its branches may not run: definitions inside are not callable later
+        try:
+            return self._renamable_value(d)
+        finally:
+            self.uncertain -= 1
+
+    def _renamable_value(self, d):
         rng = self.rng
         k = rng.choice(["if", "try", "andor", "cond"])
         D = d + 1
@@ -383,6 +404,7 @@ class Gen:
         self.scope_vars.append(x)
         self.assignable = []        # no setx/setv to outer names inside comprehension (C04's subject)
         self.no_jump_cross += 1
+        self.uncertain += 1
         self.in_loop = 0
         try:
             cond = None
@@ -398,6 +420,7 @@ class Gen:
         finally:
             self.scope_vars, self.assignable, self.in_loop = saved
             self.no_jump_cross -= 1
+            self.uncertain -= 1
         e = eff_join(eit, ec, ee)
         e["r"].discard(x)
         # temporaries assigned inside the body are private to the comprehension's scope
@@ -578,7 +601,8 @@ class Gen:
         name = f"f{next(self.fnid)}"
         ps, defs = self.params()
         body, ecall = self.fn_body(d, ps)
-        self.fns.append((name, len(ps), len(defs), ecall))
+        if not self.uncertain:
+            self.fns.append((name, len(ps), len(defs), ecall))
         node = {"op": kind, "n": name, "ps": ps, "defs": defs, "b": body}
         return node, eff(w=[name])
 
